@@ -10,7 +10,7 @@ import (
 // They are ordinary Go and are also what a native replay links against when it needs them.
 
 // vTickBudget bounds the number of ticks the ticker environment delivers.
-var vTickBudget = 2
+var vTickBudget = 40
 var vTickerStop chan struct{}
 
 func vmNewTicker(d time.Duration) *time.Ticker {
